@@ -1,4 +1,147 @@
-(** Harness glue for C09 (stub: no families yet). *)
-From Coq Require Import List String.
-From KV Require Import Glue.Val.
-Definition c09_run (fam : string) (args : list val) : option string := None.
+(** Harness glue for C09: range iterators.
+
+    families (args; [prof] is [D] when debug assertions are on, [O] otherwise):
+      c09.hist  ty kind a b pat steps via prof   one history ([pat] repeated cyclically for
+                                                 [steps] steps) on a..b / a..=b; kind R | RI |
+                                                 RR | RIR (the last two after [.rev()])
+      c09.pair  ty a b steps prof                the six periodic patterns on both a..b and a..=b
+      c09.each  ty kind a b dir via prof         for_each! (dir F) / for_each!(.., rev()) (dir B)
+      c09.from  ty a k via prof                  the first k items of a.. (via E: for_each! with
+                                                 break, which makes k+1 calls of next)
+    [via] names the API route taken by the harness; it affects the model only in c09.from. *)
+From Coq Require Import List ZArith Bool Ascii String.
+From KV Require Import Base.Prelude Base.Deque Model.Range Glue.Val.
+Import ListNotations.
+Local Open Scope string_scope.
+
+Definition ty_of (s : string) : option ty :=
+  if String.eqb s "u8" then Some (Int 8 false)
+  else if String.eqb s "u16" then Some (Int 16 false)
+  else if String.eqb s "u32" then Some (Int 32 false)
+  else if String.eqb s "u64" then Some (Int 64 false)
+  else if String.eqb s "u128" then Some (Int 128 false)
+  else if String.eqb s "usize" then Some (Int 64 false)
+  else if String.eqb s "i8" then Some (Int 8 true)
+  else if String.eqb s "i16" then Some (Int 16 true)
+  else if String.eqb s "i32" then Some (Int 32 true)
+  else if String.eqb s "i64" then Some (Int 64 true)
+  else if String.eqb s "i128" then Some (Int 128 true)
+  else if String.eqb s "isize" then Some (Int 64 true)
+  else if String.eqb s "char" then Some Char
+  else None.
+
+(** kind atom -> (kind, is_forward) *)
+Definition kind_of (s : string) : option (kind * bool) :=
+  if String.eqb s "R" then Some (KRange, true)
+  else if String.eqb s "RI" then Some (KRangeInc, true)
+  else if String.eqb s "RR" then Some (KRange, false)
+  else if String.eqb s "RIR" then Some (KRangeInc, false)
+  else None.
+
+Fixpoint ends_of (s : string) : list end_ :=
+  match s with
+  | EmptyString => []
+  | String c r => (if Ascii.eqb c "B"%char then Back else Front) :: ends_of r
+  end.
+
+(** [p] repeated cyclically, [n] steps *)
+Fixpoint cycle (n : nat) (p cur : list end_) : list end_ :=
+  match n with
+  | O => []
+  | S n' =>
+      match cur with
+      | e :: r => e :: cycle n' p r
+      | [] => match p with [] => [] | e :: r => e :: cycle n' p r end
+      end
+  end.
+
+Definition show_out (o : res (option Z)) : string :=
+  match o with Ok (Some v) => show_Z v | Ok None => "N" | _ => "PANIC" end.
+Definition out_code (o : res (option Z)) : Z :=
+  match o with Ok (Some v) => (v mod 65536 + 2)%Z | Ok None => 1%Z | _ => 0%Z end.
+(** order-sensitive digest without division: (sum of codes, sum of position * code) *)
+Fixpoint out_sums (l : list (res (option Z))) (i s1 s2 : Z) : Z * Z :=
+  match l with
+  | [] => (s1, s2)
+  | o :: r => let c := out_code o in out_sums r (i + 1)%Z (s1 + c)%Z (s2 + i * c)%Z
+  end.
+(** short runs in full; long ones as #len/sum/weighted sum/first three/last three *)
+Definition show_outs (l : list (res (option Z))) : string :=
+  if (zlen l <=? 16)%Z then show_items show_out l
+  else let '(s1, s2) := out_sums l 1%Z 0%Z 0%Z in
+       "#" ++ show_Z (zlen l) ++ "/" ++ show_Z s1 ++ "/" ++ show_Z s2 ++ "/" ++
+       show_items show_out (firstn 3 l) ++ "/" ++ show_items show_out (skipn (length l - 3)%nat l).
+
+Definition run_hist (dbg : bool) (t : ty) (kf : kind * bool) (a b : Z) (h : list end_) : string :=
+  let '(k, f) := kf in
+  show_outs (run_res (it_next dbg t k f) (it_next_back dbg t k f) h (a, b)).
+
+Definition is_dbg (v : val) : bool := String.eqb (as_atom v) "D".
+
+Definition pats : list string := ["F"; "B"; "FB"; "BF"; "FFB"; "BBF"].
+
+Definition pair_fields (dbg : bool) (t : ty) (a b : Z) (steps : nat) : list (string * string) :=
+  flat_map (fun kn : string * (kind * bool) =>
+    map (fun p : string =>
+           (fst kn ++ "." ++ p,
+            run_hist dbg t (snd kn) a b (let e := ends_of p in cycle steps e e))) pats)
+    [("R", (KRange, true)); ("RI", (KRangeInc, true))].
+
+(** items of a collect followed by how it ended *)
+Definition show_collect (r : list Z * res bool) : string :=
+  let outs := (map (fun v => Ok (Some v)) (fst r) ++
+              match snd r with Ok false => [] | Ok true => [Ok None; Ok None] | _ => [Panic] end)%list in
+  "[" ++ show_outs outs ++ "]".
+
+Definition each_fuel : nat := Z.to_nat 400.
+
+Definition c09_run (fam : string) (args : list val) : option string :=
+  if String.eqb fam "c09.hist" then
+    match args with
+    | [t; k; a; b; p; n; _; prof] =>
+        match ty_of (as_atom t), kind_of (as_atom k) with
+        | Some t', Some k' =>
+            let e := ends_of (as_atom p) in
+            Some (run_hist (is_dbg prof) t' k' (as_Z a) (as_Z b) (cycle (Z.to_nat (as_Z n)) e e))
+        | _, _ => None
+        end
+    | _ => None
+    end
+  else if String.eqb fam "c09.pair" then
+    match args with
+    | [t; a; b; n; prof] =>
+        match ty_of (as_atom t) with
+        | Some t' => Some (show_fields (pair_fields (is_dbg prof) t' (as_Z a) (as_Z b) (Z.to_nat (as_Z n))))
+        | None => None
+        end
+    | _ => None
+    end
+  else if String.eqb fam "c09.each" then
+    match args with
+    | [t; k; a; b; d; _; prof] =>
+        match ty_of (as_atom t), kind_of (as_atom k) with
+        | Some t', Some (k', _) =>
+            let f := negb (String.eqb (as_atom d) "B") in
+            Some (show_collect (collect_res (it_next (is_dbg prof) t' k' f) each_fuel (as_Z a, as_Z b)))
+        | _, _ => None
+        end
+    | _ => None
+    end
+  else if String.eqb fam "c09.from" then
+    match args with
+    | [t; a; k; via; prof] =>
+        match ty_of (as_atom t) with
+        | Some t' =>
+            (* for_each! with a break after k items calls next() k+1 times *)
+            let each := String.eqb (as_atom via) "E" in
+            let n := Z.to_nat (as_Z k) in
+            let r := range_from_take (is_dbg prof) t' (if each then S n else n) (as_Z a) in
+            Some (show_collect (match snd r with
+                                | Ok _ => ((if each then firstn n (fst r) else fst r), Ok false)
+                                | x => (fst r, x)
+                                end))
+        | None => None
+        end
+    | _ => None
+    end
+  else None.
